@@ -173,7 +173,7 @@ func bucket(n int) string {
 }
 
 // PlansC08 returns the exploration plans of check C08 (also reused by C41).
-func PlansC08() []nrun.Plan { return append(append([]nrun.Plan{}, plansC08...), GenPlanC08()) }
+func PlansC08() []nrun.Plan { return append(append([]nrun.Plan{}, plansC08...), GenPlansC08()...) }
 
 var plansC08 = []nrun.Plan{
 	{Scenario: scenario08(variant08{name: "GR-eager", proto: Eager}), QuickBudget: 1, ThoroughBudget: 2, Weight: 6},
